@@ -18,10 +18,12 @@ from . import c05_ped as G
 
 LAYOUTS = ["single", "single", "multi", "multi", "trio", "trio", "trio+single", "quartet", "trio-noped"]
 STYLES = ["random", "paired", "interleaved", "nested", "chain-gaps", "clusters", "deep", "none"]
+LARGE_STYLES = ["chain-gaps", "chain-gaps", "interleaved", "nested", "paired", "random"]    # many small components side by side
 
 
-def gen_case(rng, rephase=False, mixed=False):
-    """`mixed=True`: a `--ped` run whose VCF holds a real family PLUS samples that end up in no trio (see `_mixed_contigs`).
+def gen_case(rng, rephase=False, mixed=False, large=False):
+    """`large=True`: LARGE COORDINATES (the normal case of real data) x HEADER DECLARATIONS of the phase FORMAT keys, see `_large_params`.
+    `mixed=True`: a `--ped` run whose VCF holds a real family PLUS samples that end up in no trio (see `_mixed_contigs`).
     `rephase=True`: the VCF to be phased is the output of an EARLIER phasing run (see `_prephase`); the extra parameters are
     derived from `gen_seed`, never from `rng`, so that the stream of plain cases (also used by C07) does not move"""
     layout = rng.choice(LAYOUTS)
@@ -89,7 +91,58 @@ def gen_case(rng, rephase=False, mixed=False):
         p["mixed"] = {"family": r4.choice(["trio", "trio", "quartet"]), "names": r4.randrange(len(FAM_NAMES)), "extras": extras,
                       "segments": r4.choice([2, 2, 3, 4]), "parent_reads": r4.choice(["none", "segments", "segments", "random"]),
                       "list_all_samples": r4.random() < 0.25, "shuffle_columns": r4.random() < 0.6}
+    if large:
+        _large_params(case)
     return case
+
+
+# ---- large coordinates x header declarations (round 10, F140) -----------------------------------------------------------------
+# offsets of the (small, simulated) variant window inside a contig of realistic length.  The interesting places: where the decimal
+# position gets 7, 8, 9, 10 digits (a `%g` rendering keeps 6), right below 2^29 (the limit of the BAI index) and the 32-bit limits
+LARGE_BASES = [999_000, 1_999_950, 9_999_000, 20_000_000, 99_999_100, 123_456_000, 249_000_000, 536_700_000]
+PS_DECLS = ["standard", "standard", "absent", "float", "float", "float", "number-dot", "string", "float-dot", "integer-2"]
+HP_DECLS = ["absent", "absent", "standard", "integer", "number-1"]
+PQ_DECLS = ["absent", "absent", "standard", "integer", "string"]
+DECL_LINES = {
+    ("PS", "standard"): '##FORMAT=<ID=PS,Number=1,Type=Integer,Description="Phase set identifier">',
+    ("PS", "float"): '##FORMAT=<ID=PS,Number=1,Type=Float,Description="Phase set">',
+    ("PS", "number-dot"): '##FORMAT=<ID=PS,Number=.,Type=Integer,Description="Phase set">',
+    ("PS", "string"): '##FORMAT=<ID=PS,Number=1,Type=String,Description="Phase set">',
+    ("PS", "float-dot"): '##FORMAT=<ID=PS,Number=.,Type=Float,Description="Phase set">',
+    ("PS", "integer-2"): '##FORMAT=<ID=PS,Number=2,Type=Integer,Description="Phase set">',
+    ("HP", "standard"): '##FORMAT=<ID=HP,Number=.,Type=String,Description="Phasing haplotype identifier">',
+    ("HP", "integer"): '##FORMAT=<ID=HP,Number=.,Type=Integer,Description="Haplotype">',
+    ("HP", "number-1"): '##FORMAT=<ID=HP,Number=1,Type=String,Description="Haplotype">',
+    ("PQ", "standard"): '##FORMAT=<ID=PQ,Number=1,Type=Float,Description="Phasing quality">',
+    ("PQ", "integer"): '##FORMAT=<ID=PQ,Number=1,Type=Integer,Description="Phasing quality">',
+    ("PQ", "string"): '##FORMAT=<ID=PQ,Number=1,Type=String,Description="Phasing quality">',
+}
+
+
+def _large_params(case):
+    """every extra parameter comes from `gen_seed` (the plain stream does not move).  The simulated window of every contig is moved
+    to `base + jitter` inside a contig of declared length 2*10^6 ... 2.5*10^8 (one base below 2^29; BAM and VCF only carry the
+    declared length, the run uses --no-reference), so that variant positions have 7-9 digits and the leftmost positions of
+    neighbouring read components agree in their first 6-7 digits.  The input header declares PS / HP / PQ as absent / standard /
+    non-standard (a key used by the records is never left undeclared and never declared with a type its values cannot have)."""
+    p = case["params"]
+    r5 = random.Random(case["gen_seed"] ^ 0x1A26E)
+    p["no_reference"] = True
+    p["merge_reads"] = False
+    p["phased_vcf_input"] = False
+    p["layout"] = r5.choice(["single", "single", "single", "multi", "trio", p["layout"]]) if p["layout"] != "mixed" else "mixed"
+    p["tag"] = r5.choice(["PS", "PS", "HP"])
+    p["cap"] = r5.choice([2, 3, 15, 15])
+    p["n_contigs"] = min(p["n_contigs"], 2) if p["layout"] != "mixed" else p["n_contigs"]
+    offs = []
+    for _ in range(3):
+        base = r5.choice(LARGE_BASES)
+        offs.append(base + r5.choice([0, 0, r5.randrange(0, 900), r5.randrange(0, 90000)]))
+    p["large"] = {"offsets": offs, "ps": r5.choice(PS_DECLS), "hp": r5.choice(HP_DECLS), "pq": r5.choice(PQ_DECLS),
+                  "dense": r5.random() < 0.6}
+    if p["large"]["dense"]:
+        # many small read components next to each other: their leftmost positions differ in the last 2-3 digits only
+        p["n_variants"] = [14, 26]
 
 
 # names of the samples of a `mixed` case: families are processed in the sorted order of their representative (= smallest member name)
@@ -357,7 +410,7 @@ def scenario(case):
         for ci in range(p["n_contigs"]):
             cc = _contig_case(rng, f"chr{ci + 1}", samples, trios, p)
             for s in samples:
-                _add_reads(rng, cc, s, rng.choice(STYLES), p["noise"])
+                _add_reads(rng, cc, s, rng.choice(LARGE_STYLES if (p.get("large") or {}).get("dense") else STYLES), p["noise"])
             contigs.append(cc)
     if p["dup_names"] and len(samples) > 1:
         # the same read name in two samples (two read groups of one BAM)
@@ -415,6 +468,24 @@ def scenario(case):
                 elif kind == "noalt":
                     recs.append(dict(chrom=cc["contig"], pos=q, ref=ref, alts=[], format=keys,
                                      calls=[{"GT": rng.choice(["0/0", "0|0", "./."]), "PS": "."} for _ in samples]))
+    lg = p.get("large")
+    if lg:
+        # move the simulated window of every contig to its place inside a contig of realistic length (variants, reads, records, END;
+        # old phase sets are made afterwards, from the moved positions)
+        for ci, cc in enumerate(contigs):
+            off = lg["offsets"][ci % len(lg["offsets"])]
+            cc["offset"] = off
+            # (a BAI index cannot address positions from 2^29 on)
+            cc["length"] = min(max(2_000_000, off + len(cc["seq"]) + 1000 + (off // 7) % 3_000_000), 2 ** 29 - 1)
+            for v in cc["variants"]:
+                v["pos"] += off
+            for r in cc["reads"]:
+                r["start"] += off
+            for r in recs:
+                if r["chrom"] == cc["contig"]:
+                    r["pos"] += off
+                    if r.get("info", "").startswith("END="):
+                        r["info"] = f"END={r['pos'] + 6};SVTYPE=DEL"
     if rp:
         main = {(cc["contig"], v["pos"], v["ref"], v["alt"]) for cc in contigs for v in cc["variants"]}
         for r in recs:
@@ -449,14 +520,34 @@ INFO_DEFS = {
 }
 
 
+def large_fmt_defs(lg, keys, has_values):
+    """the FORMAT header lines of a `large` case.  A key used by the records is declared (standard if its values could not be
+    parsed under the wanted declaration: HP values are strings like 7-1,7-2; PS values are integers, which every PS declaration
+    used here can hold except Number=2 once values exist)"""
+    out = {}
+    ps, hp, pq = lg["ps"], lg["hp"], lg["pq"]
+    if "PS" in keys and (ps == "absent" or (has_values and ps == "integer-2")):
+        ps = "standard"
+    if "HP" in keys and hp != "standard":
+        hp = "standard"
+    for k, d in (("PS", ps), ("HP", hp), ("PQ", pq)):
+        if d != "absent":
+            out[k] = DECL_LINES[(k, d)]
+    return out
+
+
 def build(case, d):
     """writes the input files; returns (scenario, paths, args) — args without `phase -o OUT`"""
     p = case["params"]
     sc = scenario(case)
     os.makedirs(d, exist_ok=True)
-    contigs = {cc["contig"]: cc["seq"] for cc in sc["contigs"]}
+    lg = p.get("large")
+    # large coordinates: only the declared LENGTH of a contig goes into the BAM / VCF headers (`range` has a len and no content);
+    # there is no FASTA (the run uses --no-reference)
+    contigs = {cc["contig"]: (range(cc["length"]) if lg else cc["seq"]) for cc in sc["contigs"]}
     fa, bam, vcf = (os.path.join(d, "in" + e) for e in (".fasta", ".bam", ".vcf"))
-    sim.write_fasta(fa, contigs)
+    if not lg:
+        sim.write_fasta(fa, contigs)
     reads = []
     for cc in sc["contigs"]:
         for r in cc["reads"]:
@@ -464,10 +555,12 @@ def build(case, d):
                           "seq": r["seq"], "rg": "rg_" + r["sample"], "flag": r.get("flag", 0), "mapq": r.get("mapq", 60)})
     if not reads:
         cc = sc["contigs"][0]
-        reads.append({"name": "decoy", "chrom": cc["contig"], "start": 2, "cigar": [(0, 23)], "seq": cc["seq"][2:25],
+        reads.append({"name": "decoy", "chrom": cc["contig"], "start": 2 + cc.get("offset", 0), "cigar": [(0, 23)], "seq": cc["seq"][2:25],
                       "rg": "rg_" + sc["samples"][0], "flag": 0, "mapq": 60})
     sim.write_bam(bam, contigs, reads, [("rg_" + s, s) for s in sc["samples"]])
     fmt_defs = {k: FMT_DEFS[k] for k in sc["keys"] if k in FMT_DEFS}
+    if lg:
+        fmt_defs = large_fmt_defs(lg, sc["keys"], any("PS" in c or "HP" in c for r in sc["records"] for c in r["calls"]))
     info_defs = INFO_DEFS if any(r["alts"] == ["<DEL>"] for r in sc["records"]) else {}
     sim.write_vcf(vcf, contigs, sc["samples"], sc["records"], fmt_defs=fmt_defs, info_defs=info_defs)
     paths = {"fasta": fa, "bam": bam, "vcf": vcf}
